@@ -860,10 +860,10 @@ def _hook_traces(kind, trace_module):
     return f
 
 
-def _store_hooks_on_driver(prev):
-    """the harness links cedar-policy-core with the verif-trace hooks: a random-history run with CEDAR_VERIF_TRACE set records, for
-    every store operation, the stage between strip / install and repair_tc and the touched set; Trace_StoreHook judges them with
-    EntityStoreRepair.tla (both tiers)"""
+def _hooks_on_driver(prev, kind, family, trace_module, counts):
+    """the harness links cedar-policy-core with the verif-trace hooks: a random-driver run of `family` with CEDAR_VERIF_TRACE set
+    records what the library itself observed (store: the stage between strip / install and repair_tc and the touched set;
+    authorizer: the outcome of every policy and the response); the family's hook trace spec judges the events (both tiers)"""
     def f(fam, tier, wd, seed):
         import glob, subprocess
         out = prev(fam, tier, wd, seed) if prev else []
@@ -871,32 +871,31 @@ def _store_hooks_on_driver(prev):
         os.makedirs(hd, exist_ok=True)
         for p in glob.glob(os.path.join(hd, "tr.*")):
             os.remove(p)
-        n = dict(quick=400, thorough=8000)[tier]
         env = dict(os.environ, CEDAR_VERIF_TRACE=os.path.join(hd, "tr"))
-        r = subprocess.run([vlib.CONFORM, "drive", "store", str(seed + 7), str(n), os.path.join(hd, "drive.out.ndjson")], env=env,
+        r = subprocess.run([vlib.CONFORM, "drive", family, str(seed + 7), str(counts[tier]), os.path.join(hd, "drive.out.ndjson")], env=env,
                            stdout=subprocess.PIPE, stderr=subprocess.PIPE, text=True)
         if r.returncode != 0:
-            raise vlib.ToolError("store driver with hooks failed: " + r.stderr[-2000:])
+            raise vlib.ToolError("%s driver with hooks failed: %s" % (family, r.stderr[-2000:]))
         tpath = os.path.join(wd, "hookdrv.trace.ndjson")
         k = 0
         with open(tpath, "w") as w:
             for p in sorted(glob.glob(os.path.join(hd, "tr.*"))):
                 for line in open(p):
-                    if '"ev":"EsOp"' in line:
+                    if '"ev":"%s"' % kind in line:
                         w.write(line)
                         k += 1
-        vlib.log("store hook events from the driver: %d" % k)
+        vlib.log("%s hook events from the %s driver: %d" % (kind, family, k))
         if k == 0:
-            raise vlib.ToolError("no store hook events recorded: is the verif-trace feature still wired into the harness?")
-        out.append((tpath, "T:driver(hooks)", "Trace_StoreHook.tla"))
+            raise vlib.ToolError("no %s hook events recorded: is the verif-trace feature still wired into the harness?" % kind)
+        out.append((tpath, "T:driver(hooks)", trace_module))
         return out
     return f
 
 
 C04["_prev_extra"] = C04.get("extra_traces")
-C04["extra_traces"] = _store_hooks_on_driver(_hook_traces("EsOp", "Trace_StoreHook.tla"))
+C04["extra_traces"] = _hooks_on_driver(_hook_traces("EsOp", "Trace_StoreHook.tla"), "EsOp", "store", "Trace_StoreHook.tla", dict(quick=400, thorough=8000))
 C01["_prev_extra"] = C01.get("extra_traces")
-C01["extra_traces"] = _hook_traces("AuthzHook", "Trace_AuthzHook.tla")
+C01["extra_traces"] = _hooks_on_driver(_hook_traces("AuthzHook", "Trace_AuthzHook.tla"), "AuthzHook", "authz", "Trace_AuthzHook.tla", dict(quick=300, thorough=5000))
 
 
 # ----------------------------------------------------------------- C06
